@@ -21,7 +21,7 @@ GID = [f"g{i}" for i in range(N_GID)]
 
 # ops that the documentation (docstrings / @resettable / statement of C03) declares reversible in a context
 REVERSIBLE = {
-    "add_reactions", "remove_reactions", "add_metabolites", "remove_metabolites", "add_boundary", "rxn_add_mets",
+    "add_reactions", "readd", "remove_reactions", "add_metabolites", "remove_metabolites", "add_boundary", "rxn_add_mets",
     "bounds", "rule", "gene_state", "knock_out_model_genes", "objective", "direction", "imul", "iadd", "isub",
     "remove_genes", "rename_genes", "add_cons", "add_var", "remove_cons", "medium", "optimize", "solver",
     "from_string", "merge", "helper",
@@ -49,6 +49,7 @@ OPS: Dict[str, Any] = {
     "add_reactions": _d("add_reactions", rxns=st.lists(_new_rxn, min_size=1, max_size=3, unique_by=lambda d: d["id"])),
     "remove_reactions": _d("remove_reactions", sels=st.lists(_k, min_size=1, max_size=3), by=st.sampled_from(["obj", "id", "mixed"]),
                            orphans=st.booleans(), single=st.booleans(), via=st.sampled_from(["model", "model", "rxn"])),
+    "readd": _d("readd", k=_k),
     "add_metabolites": _d("add_metabolites", mets=st.lists(st.integers(0, N_MID - 1), min_size=1, max_size=3, unique=True), single=st.booleans()),
     "remove_metabolites": _d("remove_metabolites", sels=st.lists(_k, min_size=1, max_size=2), destructive=st.booleans(),
                              via=st.sampled_from(["model", "model", "met"])),
@@ -183,6 +184,7 @@ class World:
         self.ctx_stack: List[Dict[str, Any]] = []
         self.retired: List[Any] = []  # (model, user) pairs left behind by copy ops
         self.trace: List[Dict[str, Any]] = []
+        self.graveyard: List[Any] = []  # reaction objects taken out by remove_reactions (re-added by "readd")
         self.in_block = 0
         self.on_step = None  # callback(world, op, outcome) after every primitive step
         self.effective = 0
@@ -305,13 +307,36 @@ class World:
             return "skipped:known-usercon-lost"
         if self._exact_copy_blocks():
             return "skipped:known-glpk-exact-copy-vartype"
-        if op["via"] == "rxn":
-            r = self.pick(m.reactions, op["sels"][0])
-            r.remove_from_model(remove_orphans=op["orphans"])
-        elif op["single"]:
-            m.remove_reactions(picked[0], remove_orphans=op["orphans"])
-        else:
-            m.remove_reactions(picked, remove_orphans=op["orphans"])
+        objs = [self.pick(m.reactions, k) for k in op["sels"]]
+        if op["via"] == "rxn" or op["single"]:
+            objs = objs[:1]
+        objs = list(dict.fromkeys(objs))
+        try:
+            if op["via"] == "rxn":
+                objs[0].remove_from_model(remove_orphans=op["orphans"])
+            elif op["single"]:
+                m.remove_reactions(picked[0], remove_orphans=op["orphans"])
+            else:
+                m.remove_reactions(picked, remove_orphans=op["orphans"])
+        finally:
+            if not self.depth():  # inside a context the removal is undone on exit: the object comes back by itself
+                gone = [r for r in objs if r.model is None]
+                self.graveyard.extend(gone)
+                # the columns are deleted for good: user constraints lose these terms even if the object returns
+                for name, (lb, ub, terms) in list(self.user["cons"].items()):
+                    self.user["cons"][name] = (lb, ub, [(r, c) for r, c in terms if all(r is not g for g in gone)])
+
+    def op_readd(self, op):
+        """Give a reaction object that remove_reactions took out back to the model (the same object)."""
+        if not self.graveyard:
+            return "skipped:empty"
+        r = self.graveyard[op["k"] % len(self.graveyard)]
+        if r.model is not None:
+            return "skipped:already-back"
+        if "readd-stale-gene-undo" in self.known and self.depth() and {g.id for g in r.genes} != set(r.gpr.genes):
+            self._count_excluded("readd-stale-gene-undo")
+            return "skipped:known-readd-stale-gene-undo"
+        self.model.add_reactions([r])
 
     def op_add_metabolites(self, op):
         from cobra import Metabolite
@@ -515,6 +540,7 @@ class World:
         self.model = new
         self.user = user_remap(self.user, new)
         self.ctx_stack = []
+        self.graveyard = []  # those objects belong to the history of the original
         if new.problem.__name__.endswith("glpk_exact_interface"):
             self.exact_copy = True
 
@@ -522,8 +548,10 @@ class World:
         if "solver-switch-in-context" in self.known and self.depth() and not self.model.problem.__name__.endswith(op["name"] + "_interface"):
             self._count_excluded("solver-switch-in-context")
             return "skipped:known-solver-switch-in-context"
+        before = self.model.problem
         self.model.solver = op["name"]
-        self.exact_copy = False  # Model.clone builds variables of the right class
+        if self.model.problem is not before:
+            self.exact_copy = False  # Model.clone builds variables of the right class
 
     def op_enter(self, op):
         if self.depth() >= 3:
